@@ -284,15 +284,19 @@ VerdictRel(rec) ==
 \*   "raw"  : the layout is written as given (neither relativized nor fitted)
 TokOwn(t, sz) == /\ t.plain /\ Len(t.fp) <= 2 /\ t.pu = sz.u
                  /\ WithinHalfHundredth(Hundredths(t.ip, t.fp), sz.n, sz.d)
+RawVerdict(rec) ==
+  LET ls == Lengths(rec.lay) IN
+  IF rec.out # "ok" THEN "DeviationRawButRaised"
+  ELSE IF \E k \in 1..Len(ls) : ~(Seen(rec.obs[ls[k][1]]) /\ TokOwn(rec.obs[ls[k][1]], ls[k][3]))
+       THEN "DeviationRawValueChanged"
+  ELSE IF ~Has(rec.lay.e) /\ (Seen(rec.obs.eh) \/ Seen(rec.obs.ev)) THEN "DeviationRawExtentInvented"
+  ELSE "ok"
+\* both deviations have one root (a language-level layout bypasses _relativize_and_fit_to_screen), so a
+\* layout that mixes percentages with absolute lengths shows both at once: whichever clause came
+\* first, such a record is explained exactly when the layout is written as given
 VerdictRelDev(rec) ==
-  IF rec.dev = "nofit" THEN VerdictRel([rec EXCEPT !.fit = FALSE])
-  ELSE IF rec.dev = "raw" THEN
-     LET ls == Lengths(rec.lay) IN
-     IF rec.out # "ok" THEN "DeviationRawButRaised"
-     ELSE IF \E k \in 1..Len(ls) : ~(Seen(rec.obs[ls[k][1]]) /\ TokOwn(rec.obs[ls[k][1]], ls[k][3]))
-          THEN "DeviationRawValueChanged"
-     ELSE IF ~Has(rec.lay.e) /\ (Seen(rec.obs.eh) \/ Seen(rec.obs.ev)) THEN "DeviationRawExtentInvented"
-     ELSE "ok"
+  IF rec.dev = "nofit" THEN (IF VerdictRel([rec EXCEPT !.fit = FALSE]) = "ok" THEN "ok" ELSE RawVerdict(rec))
+  ELSE IF rec.dev = "raw" THEN RawVerdict(rec)
   ELSE "UnknownDeviation"
 
 \* ---- design model of the code path: as_percentage_of, fit_to_screen, two-decimal print
